@@ -110,14 +110,16 @@ def check(prog: Program, tier: str) -> Result:
             idx = loop.target.elts[0].id
         elif isinstance(loop.iter, ast.Call) and attr_chain(loop.iter.func) == "range" and isinstance(loop.target, ast.Name):
             idx = loop.target.id
-        brk = [n for n in ast.walk(loop) if isinstance(n, ast.If) and any(isinstance(b, ast.Break) for b in n.body)]
+        brk = [n for n in ast.walk(loop) if isinstance(n, ast.If) and (any(isinstance(b, ast.Break) for b in n.body) or any(isinstance(b, ast.Break) for b in n.orelse))]
         if idx is None or len(brk) != 1:
             raise AnalysisError(f"{fi_.qualname}: search loop shape not understood")
-        mon = next((s_.targets[0].id for s_ in brk[0].body if isinstance(s_, ast.Assign) and isinstance(s_.targets[0], ast.Name) and ast.unparse(s_.value) == idx), None)
+        pol = any(isinstance(b, ast.Break) for b in brk[0].body)  # the stopping branch is the body (True) or the else (False)
+        stop, go = (brk[0].body, brk[0].orelse) if pol else (brk[0].orelse, brk[0].body)
+        mon = next((s_.targets[0].id for s_ in stop if isinstance(s_, ast.Assign) and isinstance(s_.targets[0], ast.Name) and ast.unparse(s_.value) == idx), None)
         if mon is None:
             raise AnalysisError(f"{fi_.qualname}: the search does not record the month index when it stops")
         k = fn_.body.index(loop)
-        return {"DIY": diy, "HIY": hiy, "loop": loop, "IDX": idx, "brk": brk[0], "MON": mon, "pre": fn_.body[:k], "post": fn_.body[k + 1:]}
+        return {"DIY": diy, "HIY": hiy, "loop": loop, "IDX": idx, "brk": brk[0], "pol": pol, "stop": stop, "go": go, "MON": mon, "pre": fn_.body[:k], "post": fn_.body[k + 1:]}
 
     def run(eng_, stmts, st_):
         for s_ in stmts:
@@ -159,10 +161,12 @@ def check(prog: Program, tier: str) -> Result:
         res.violation("R19.1", f"time-convert|hour|{vkey(h_v)[:40]}", prog.loc(fi, rets[0]), q, f"hour of day is {vkey(h_v)[:120]} instead of h_l mod 24 + 1 with h_l = hours - sum(hours_in_year[0:month])")
     # month search: first month whose cumulative hours reach the hour index (0-based): sum + h[idx] - 1 >= hours
     loop, brk = R["loop"], R["brk"]
-    accs = [s_ for s_ in ast.walk(loop) if isinstance(s_, ast.AugAssign) and isinstance(s_.target, ast.Name) and isinstance(s_.op, ast.Add)]
+    from ..model import as_increment
+
+    accs = [s_ for s_ in ast.walk(loop) if isinstance(s_, ast.stmt) and as_increment(s_) is not None]
     ok = False
-    if len(accs) == 1 and any(accs[0] is x for b_ in brk.orelse for x in ast.walk(b_)):
-        ACC = accs[0].target.id
+    if len(accs) == 1 and any(accs[0] is x for b_ in R["go"] for x in ast.walk(b_)):
+        ACC = as_increment(accs[0])[0]
         e2 = Engine(prog, fi, Hooks())
         s2 = State()
         s2.env[hours_p] = Rat.atom("hours")
@@ -170,10 +174,14 @@ def check(prog: Program, tier: str) -> Result:
         s2.env[R["IDX"]] = Rat.atom("idx")
         s2.env[ACC] = Rat.atom("ACC")
         run(e2, [s_ for s_ in loop.body if s_ is not brk], s2)
+        from ..paths import cmp_is, negate
+
         c = e2.cond(brk.test, s2)
+        if not R["pol"]:
+            c = negate(c)
         want = Rat.atom("ACC") + Rat.atom("hours_in_year[idx]") - Rat.const(1) - Rat.atom("hours")
-        ok = c.kind == "cmp" and ((c.a.equals(want) and c.s == frozenset(("0", "+"))) or (c.a.equals(-want) and c.s == frozenset(("0", "-"))))
-        inc = e2.eval(accs[0].value, s2)
+        ok = cmp_is(c, want, "0+")
+        inc = e2.eval(as_increment(accs[0])[1], s2)
         a0 = acc0.get(ACC)
         ok = ok and isinstance(inc, Rat) and inc.equals(Rat.atom("hours_in_year[idx]")) and a0 is not None and a0.is_zero()
     res.ob("R19.1", "ghe_time_convert: month = first one with cumulative hours - 1 >= hour index (0-based), cumulative sum (from 0) advanced otherwise", ok, prog.loc(fi, brk))
